@@ -98,7 +98,24 @@ Definition read_len (l : N) (rest : bytes) : res (bytes * bytes) :=
   Ok (firstn (N.to_nat v) r1, skipn (N.to_nat v) r1).
 
 (* ---------- skipRaft ---------- *)
-(* returns the number of bytes the unknown field occupies, counted from the start of [bs]
+(* The body of a start-group field (wire type 3): skip inner fields until the matching end-group tag.
+     for { start := iNdEx; read innerWire; if innerWire&7 == 4 {break};
+           next := skipRaft(dAtA[start:]); iNdEx = start + next; if iNdEx < 0 {InvLen} }
+   [rec] is skipRaft itself (one level of nesting deeper), [idx] = iNdEx, [k] bounds the number of
+   inner fields (each consumes at least one byte). *)
+Fixpoint skip_group (rec : bytes -> res N) (bs : bytes) (k : nat) (idx : N) : res N :=
+  match k with
+  | O => Err PFuel
+  | S k' =>
+    let cur := skipn (N.to_nat idx) bs in
+    do '(iw, r) <- varint_dec cur ;
+    if N.land iw 7 =? 4 then Ok (idx + (len cur - len r))
+    else
+      do next <- rec cur ;
+      if two63 <=? idx + next then Err PInvLen else skip_group rec bs k' (idx + next)
+  end.
+
+(* skipRaft: returns the number of bytes the unknown field occupies, counted from the start of [bs]
    (which may exceed the buffer: the caller checks). [fuel] bounds the nesting of groups and the
    number of fields inside a group; every level / iteration consumes at least one byte. *)
 Fixpoint skip_raft (fuel : nat) (bs : bytes) : res N :=
@@ -115,17 +132,7 @@ Fixpoint skip_raft (fuel : nat) (bs : bytes) : res N :=
            if two63 <=? v then Err PInvLen
            else if two63 <=? i2 + v then Err PInvLen
            else Ok (i2 + v)
-    | 3 => (fix group (k : nat) (idx : N) : res N :=
-              match k with
-              | O => Err PFuel
-              | S k' =>
-                let cur := skipn (N.to_nat idx) bs in
-                do '(iw, r) <- varint_dec cur ;
-                if N.land iw 7 =? 4 then Ok (idx + (len cur - len r))
-                else
-                  do next <- skip_raft f cur ;
-                  if two63 <=? idx + next then Err PInvLen else group k' (idx + next)
-              end) f i1
+    | 3 => skip_group (skip_raft f) bs f i1
     | 4 => Ok i1
     | 5 => Ok (i1 + 4)
     | _ => Err PWire
